@@ -18,7 +18,7 @@ use std::sync::atomic::Ordering;
 
 pub fn run(ctx: &Ctx) -> i32 {
     let mon = Mon::new();
-    let n = ctx.tier.pick(48, 700);
+    let n = ctx.tier.pick(48, 240);
     par_cases(ctx, &mon, "hist", n, |cc, rng, l| {
         let mut case = HistCase::random(rng, ctx.tier.pick(6, 10), 8, 3, cc.idx % 4 == 0);
         case.hist.batches.truncate(ctx.tier.pick(6, 10));
@@ -33,9 +33,9 @@ pub fn run(ctx: &Ctx) -> i32 {
             "for every effective publish of generated histories the commit batch is captured; with r non-epoch records: ALL 2^r subsets when r <= 9, otherwise every prefix of 8 random permutations + 150 random subsets; each subset is applied (epoch record withheld) to a deep copy of the pre-commit database and a fresh ReadOnlyDirectory (uncached and cached) must report the previous (epoch, hash), serve verifying lookups + complete histories of every label equal to the model at the previous epoch, verify audit(0,E) and audit(E-1,E), and not serve labels first published in the unfinished epoch; with the epoch record added the new epoch is served completely. distinct = (publish shape, kinds of records present/absent in the subset); non-trivial = subset is neither empty nor complete",
         )
         .assume("each record is written atomically and the epoch record is written last (the storage contract the code documents); torn records are out of scope")
-        .need("crash_states", ctx.tier.pick(3000, 60000))
-        .need("publishes_enumerated", ctx.tier.pick(100, 2000))
-        .need("complete_commits_checked", ctx.tier.pick(100, 2000)),
+        .need("crash_states", ctx.tier.pick(3000, 30000))
+        .need("publishes_enumerated", ctx.tier.pick(100, 700))
+        .need("complete_commits_checked", ctx.tier.pick(100, 700)),
     )
 }
 
